@@ -27,6 +27,28 @@ package kv
 //@   loop #1
 //@     invariant [shared-map-untouched] kv != nil && kv.m == old(kv.m) && (forall k string :: (in(k, kv.m) <==> old(in(k, kv.m))) && (old(in(k, kv.m)) ==> kv.m[k] == old(kv.m[k])))
 //@     invariant [copy-is-private] fresh(kvCopy) && !in(key, kvCopy)
+// The temporary view behind Do (batch edits of labels / annotations) starts out sharing the map; its
+// first effective change - a Set or a Delete alike - goes to a private copy, the shared map is never written.
+//@ func (*tempKV).Delete
+//@   props C19
+//@   requires [target] tmp != nil
+//@   requires [dirty-view-has-a-map] tmp.dirty ==> tmp.m != nil
+//@   modifies tmp.m, tmp.dirty
+//@   ensures [dirty-view-has-a-map] tmp.dirty ==> tmp.m != nil
+//@   ensures [shared-map-untouched] !old(tmp.dirty) ==> (forall k string :: (in(k, old(tmp.m)) <==> old(in(k, tmp.m))) && (old(in(k, tmp.m)) ==> old(tmp.m)[k] == old(tmp.m[k])))
+//@   ensures [first-change-goes-to-a-private-copy] !old(tmp.dirty) && tmp.dirty ==> fresh(tmp.m)
+//@   ensures [no-change-stays-shared] !old(tmp.dirty) && !tmp.dirty ==> tmp.m == old(tmp.m)
+//@   ensures [deleted] !in(key, tmp.m)
+//@ func (*tempKV).Set
+//@   props C19
+//@   requires [target] tmp != nil
+//@   requires [dirty-view-has-a-map] tmp.dirty ==> tmp.m != nil
+//@   modifies tmp.m, tmp.dirty
+//@   ensures [dirty-view-has-a-map] tmp.dirty ==> tmp.m != nil
+//@   ensures [shared-map-untouched] !old(tmp.dirty) ==> (forall k string :: (in(k, old(tmp.m)) <==> old(in(k, tmp.m))) && (old(in(k, tmp.m)) ==> old(tmp.m)[k] == old(tmp.m[k])))
+//@   ensures [first-change-goes-to-a-private-copy] !old(tmp.dirty) && tmp.dirty ==> fresh(tmp.m)
+//@   ensures [no-change-stays-shared] !old(tmp.dirty) && !tmp.dirty ==> tmp.m == old(tmp.m)
+//@   ensures [set] in(key, tmp.m) && tmp.m[key] == value
 //@ func (*KV).Get
 //@   inline
 //@ func (KV).Empty
